@@ -1270,3 +1270,238 @@ func ruleCloneStatusSource(rule string) ruleFn {
 		c.Floor(rule, 2)
 	}
 }
+
+// ---------------------------------------------------------------------------
+// C09-DEDUPE: one replica, one registration
+// ---------------------------------------------------------------------------
+
+func ruleRegDedupe(rule string) ruleFn {
+	return func(c *Ctx) {
+		c.Doc(rule, "registerReplica records a registration only after the scan that deletes every entry of the same replica (same UUID) under another address ran to its end, on every path: a replica that comes back under a new address while the election is not re-run must not count twice towards the majority")
+		fn := c.Anchor(rule, fCtl+"registerReplica")
+		if fn == nil {
+			return
+		}
+		R := NewRenderer(fn)
+		var dels, ins []ssa.Instruction
+		eachInstr(fn, func(in ssa.Instruction) {
+			switch x := in.(type) {
+			case *ssa.Call:
+				if callMatches(x, "builtin:delete") && R.V(x.Call.Args[0]) == "$0.RegisteredReplicas" && R.V(x.Call.Args[1]) == "key($0.RegisteredReplicas)" {
+					// the dedupe delete is the one under the UUID test
+					dels = append(dels, in)
+				}
+			case *ssa.MapUpdate:
+				if R.V(x.Map) == "$0.RegisteredReplicas" && R.V(x.Key) == "$1.Address" {
+					ins = append(ins, in)
+				}
+			}
+		})
+		var dedupe []ssa.Instruction
+		for _, d := range dels {
+			ws := Query{Fn: fn, IsSite: func(in ssa.Instruction) bool { return in == d }, GenEdge: atomEdges(fn, R, eqAtom("$0.RegisteredReplicas[*].UUID", "$1.UUID"))}.Run()
+			if len(ws) == 0 {
+				dedupe = append(dedupe, d)
+			}
+		}
+		if len(dedupe) == 0 || len(ins) == 0 {
+			c.Bad(rule, FnName(fn)+" | dedupe scan", c.P.Pos(fn.Pos()), fmt.Sprintf("found %d deletions under the same-UUID test and %d registrations", len(dedupe), len(ins)), nil)
+			return
+		}
+		c.Guard(rule, fn, dedupe, "forget the old address", nil,
+			atom("same replica", eqAtom("$0.RegisteredReplicas[*].UUID", "$1.UUID")),
+			atom("another address", neAtom("$1.Address", "key($0.RegisteredReplicas)")))
+		type ek struct {
+			b *ssa.BasicBlock
+			k int
+		}
+		exit := map[ek]bool{}
+		for _, ea := range allAtoms(fn, R) {
+			if ea.Atom.String() == "!more($0.RegisteredReplicas)" {
+				for _, d := range dedupe {
+					if ea.B.Dominates(d.Block()) {
+						exit[ek{ea.B, ea.Succ}] = true
+					}
+				}
+			}
+		}
+		c.Guard(rule, fn, ins, "record the registration", nil, Need{Desc: "the same-UUID scan ran to its end", Edge: func(b *ssa.BasicBlock, k int) bool { return exit[ek{b, k}] }})
+		c.Floor(rule, 3)
+	}
+}
+
+// ---------------------------------------------------------------------------
+// C11-FORWARD: the server hands out the replica's own removal plan
+// ---------------------------------------------------------------------------
+
+func ruleRemovePlanForward(rule string) ruleFn {
+	return func(c *Ctx) {
+		c.Doc(rule, "replica.Server.PrepareRemoveDisk returns exactly what Replica.PrepareRemoveDisk computed for the requested disk (the plan 'coalesce into the parent, then remove' is never shortened or extended on the way to the cleaner)")
+		fn := c.Anchor(rule, fSrv+"PrepareRemoveDisk")
+		if fn == nil {
+			return
+		}
+		calls := CallsTo(fn, fRep+"PrepareRemoveDisk")
+		bad := ""
+		n := 0
+		for _, r := range Returns(fn) {
+			if len(r.Results) != 2 {
+				continue
+			}
+			if provablyNonNilError(r.Results[1]) {
+				continue
+			}
+			if len(r.Block().Preds) == 0 && r.Block().Index != 0 {
+				continue
+			}
+			n++
+			ex, ok := strip(r.Results[0]).(*ssa.Extract)
+			if !ok || ex.Index != 0 || len(calls) != 1 || ex.Tuple != ssa.Value(calls[0].(*ssa.Call)) {
+				bad = c.P.InstrPos(r)
+			}
+		}
+		key := FnName(fn) + " | plan forwarded unchanged"
+		if bad == "" && n > 0 && len(calls) == 1 {
+			c.OK(rule, key, c.P.InstrPos(calls[0]), "return s.r.PrepareRemoveDisk(name)", false)
+		} else {
+			c.Bad(rule, key, bad, "a return that can be a success hands out something other than the result of Replica.PrepareRemoveDisk", nil)
+		}
+		c.Floor(rule, 1)
+	}
+}
+
+// ---------------------------------------------------------------------------
+// C12-RELINK / C12-CHILDREN / C12-WALK
+// ---------------------------------------------------------------------------
+
+func ruleChainLinks(rule string) ruleFn {
+	return func(c *Ctx) {
+		c.Doc(rule, "updateParentDisk re-links the child of a removed disk to that disk's parent, or to \"\" when the removed disk was the base, and persists the child with one of the two written; readDiskData registers every disk that has a parent in the children map on every success path (reopen / reload / revert rebuild the map from there); Chain and DisplayChain append every disk they visit (the reported chain is the path head -> base, marked-as-removed members included)")
+		if fn := c.Anchor(rule, fRep+"updateParentDisk"); fn != nil {
+			R := NewRenderer(fn)
+			var sts []ssa.Instruction
+			vals := map[string]ssa.Instruction{}
+			eachInstr(fn, func(in ssa.Instruction) {
+				if st, ok := in.(*ssa.Store); ok && R.V(st.Addr) == "&$0.diskData[$1].Parent" {
+					sts = append(sts, in)
+					vals[R.V(st.Val)] = in
+				}
+			})
+			up, base := vals["$0.diskData[$2].Parent"], vals[`""`]
+			key := FnName(fn) + " | child re-linked"
+			if up == nil || base == nil || len(vals) != 2 {
+				var vs []string
+				for v := range vals {
+					vs = append(vs, v)
+				}
+				sort.Strings(vs)
+				c.Bad(rule, key, c.P.Pos(fn.Pos()), "child.Parent receives "+strings.Join(vs, " / ")+` (expected diskData[removed].Parent and "")`, nil)
+			} else {
+				c.OK(rule, key, c.P.InstrPos(up), `diskData[removed].Parent / ""`, false)
+				c.Guard(rule, fn, []ssa.Instruction{up}, "link to the grandparent", nil, atom("a disk below was removed", neAtom(`""`, "$2")))
+				c.Guard(rule, fn, []ssa.Instruction{base}, "child becomes the base", nil, atom("the base was removed", eqAtom(`""`, "$2")))
+			}
+			c.Guard(rule, fn, CallsTo(fn, fRep+"encodeToFile"), "persist the child", nil, Need{Desc: "the new parent was written", Instr: func(in ssa.Instruction) bool {
+				for _, s := range sts {
+					if s == in {
+						return true
+					}
+				}
+				return false
+			}})
+		}
+		if fn := c.Anchor(rule, fRep+"readDiskData"); fn != nil {
+			R := NewRenderer(fn)
+			var par string
+			for _, r := range successReturns(fn) {
+				par = R.V(r.(*ssa.Return).Results[0])
+			}
+			nd := Need{Desc: "disk registered as a child of its parent (or it has none)", Calls: []string{fRep + "addChildDisk"}}
+			if par != "" {
+				nd.Atoms = []string{eqAtom(`""`, par)}
+			}
+			c.Guard(rule, fn, successReturns(fn), "return the parent", nil, nd)
+		}
+		for _, name := range []string{fRep + "Chain", fRep + "DisplayChain"} {
+			fn := c.Anchor(rule, name)
+			if fn == nil {
+				continue
+			}
+			R := NewRenderer(fn)
+			// the walk variable: a string phi fed by info.Head
+			var cur *ssa.Phi
+			eachInstr(fn, func(in ssa.Instruction) {
+				if p, ok := in.(*ssa.Phi); ok && cur == nil {
+					for _, e := range p.Edges {
+						if R.V(e) == "$0.info.Head" {
+							cur = p
+						}
+					}
+				}
+			})
+			key := FnName(fn) + " | every visited disk is reported"
+			if cur == nil {
+				c.Bad(rule, key, c.P.Pos(fn.Pos()), "walk variable (starting at info.Head) not found", nil)
+				continue
+			}
+			// appends of cur
+			var apps []ssa.Instruction
+			eachInstr(fn, func(in ssa.Instruction) {
+				cl, ok := in.(*ssa.Call)
+				if !ok || !callMatches(cl, "builtin:append") || len(cl.Call.Args) != 2 {
+					return
+				}
+				// the variadic slice holds cur
+				sl, ok := cl.Call.Args[1].(*ssa.Slice)
+				if !ok {
+					return
+				}
+				al, ok := sl.X.(*ssa.Alloc)
+				if !ok {
+					return
+				}
+				for _, u := range *al.Referrers() {
+					if ia, ok := u.(*ssa.IndexAddr); ok {
+						for _, w := range *ia.Referrers() {
+							if st, ok := w.(*ssa.Store); ok && st.Val == ssa.Value(cur) {
+								apps = append(apps, in)
+							}
+						}
+					}
+				}
+			})
+			var steps []ssa.Instruction
+			for _, e := range cur.Edges {
+				if in, ok := e.(ssa.Instruction); ok && R.V(e) != "$0.info.Head" {
+					steps = append(steps, in)
+				}
+			}
+			if len(apps) == 0 || len(steps) == 0 {
+				c.Bad(rule, key, c.P.Pos(fn.Pos()), fmt.Sprintf("%d appends of the walk variable, %d steps to the parent", len(apps), len(steps)), nil)
+				continue
+			}
+			isApp := func(in ssa.Instruction) bool {
+				for _, a := range apps {
+					if a == in {
+						return true
+					}
+				}
+				return false
+			}
+			var bad *Witness
+			for _, s := range steps {
+				s := s
+				ws := Query{Fn: fn, IsSite: func(in ssa.Instruction) bool { return in == s }, Gen: isApp, Kill: func(in ssa.Instruction) bool { return in == ssa.Instruction(cur) }}.Run()
+				if len(ws) > 0 {
+					bad = &ws[0]
+				}
+			}
+			if bad == nil {
+				c.OK(rule, key, c.P.InstrPos(apps[0]), "append(result, cur) on every iteration before cur = parent", true)
+			} else {
+				c.Bad(rule, key, c.P.InstrPos(bad.Site), "the walk can step to the parent without having reported the current disk: the reported chain is no longer the path from head to base", c.witness(*bad))
+			}
+		}
+		c.Floor(rule, 7)
+	}
+}
